@@ -185,6 +185,12 @@ func vfC22Case(rep *vk.Report, d *vfDB, dbi, qi, ncfg int, th *Thread) {
 			rep.Count("index_aware_cases", 1)
 		}
 	}
+	if qi%40 == 7 {
+		// arithmetic on a column that is fixed to "" or false (zero in arithmetic)
+		if q = vfGenFixedNonNumberQuery(d, r); q != nil {
+			rep.Count("fixed_non_number_cases", 1)
+		}
+	}
 	if q == nil {
 		q = vfGenQuery(d, r, 1+r.IntN(5))
 	}
